@@ -184,73 +184,74 @@ theorem ReportedConsistent.of_angle {gB gT p ρ e M u v q : ℝ} (γ : ℝ) (hγ
   obtain ⟨φ, hu, hv⟩ := h
   exact ⟨γ, φ, hγ, ⟨hu, hv⟩, he, hq⟩
 
-/-- the same, for velocity components written as one factor `K` times the cosine / sine of the flow angle -/
-theorem ReportedConsistent.of_factor {gB gT p ρ e M u v q : ℝ} (γ : ℝ) (hγ : γ = gB ∨ γ = gT)
-    (he : e = p / ρ / (γ - 1)) (hq : q = Real.sqrt (u ^ 2 + v ^ 2)) (K : ℝ)
-    (h : ∃ φ : ℝ, u = K * Real.cos φ ∧ v = K * Real.sin φ) (hK : K = Real.sqrt (γ * p / ρ) * M) :
+/-- the same in the order in which the `r2d_*_consistent` proofs establish the parts: the speed (independent
+of the gas), then the gas γ with the energy, then the velocity components as one factor `K` times the cosine /
+sine of a flow angle, and last `K = √(γ p/ρ) · M` -/
+theorem ReportedConsistent.of_speed {gB gT p ρ e M u v q : ℝ} (hq : q = Real.sqrt (u ^ 2 + v ^ 2))
+    (h : ∃ γ : ℝ, (γ = gB ∨ γ = gT) ∧ e = p / ρ / (γ - 1) ∧
+      ∃ K φ : ℝ, (u = K * Real.cos φ ∧ v = K * Real.sin φ) ∧ K = Real.sqrt (γ * p / ρ) * M) :
     ReportedConsistent gB gT p ρ e M u v q := by
+  obtain ⟨γ, hγ, he, K, φ, ⟨hu, hv⟩, hK⟩ := h
   subst hK
-  exact ReportedConsistent.of_angle γ hγ he hq h
+  exact ReportedConsistent.of_angle γ hγ he hq ⟨φ, hu, hv⟩
 
 /-- the same term (no unfolding: a failing comparison of two large real terms must stay cheap) -/
-macro "r2d_same" : tactic => `(tactic| with_reducible rfl)
+macro "epv_semi_su_r2d_same" : tactic => `(tactic| with_reducible rfl)
 
 /-- cheap comparison of a reported value with its documented form: the same term, or the same product of
-the same factors in another order, or the same after `a / b / c` ↦ `a / (b * c)` -/
-macro "r2d_fast" : tactic =>
-  `(tactic| first
-    | with_reducible rfl
-    | ring1
-    | (simp only [div_div]; first | with_reducible rfl | ring1))
+the same factors in another order -/
+macro "epv_semi_su_r2d_fast" : tactic => `(tactic| first | with_reducible rfl | ring1)
+
+/-- the same after `a / b / c` ↦ `a / (b * c)` -/
+macro "epv_semi_su_r2d_div" : tactic => `(tactic| (simp only [div_div]; first | with_reducible rfl | ring1))
+
+/-- one level down: `f A = f B` (e.g. `√(v² + u²) = √(u² + v²)`) with `A = B` the same polynomial in the same
+(possibly large) atoms -/
+macro "epv_semi_su_r2d_peel" : tactic => `(tactic| (congr 1 <;> first | with_reducible rfl | ring1))
 
 /-- comparison up to ring normalisation at every level (under the square roots too) -/
-macro "r2d_slow" : tactic =>
+macro "epv_semi_su_r2d_slow" : tactic =>
   `(tactic| first
     | (ring_nf; done)
     | (epv_semi_su_pre; ring_nf; done)
     -- `a / (b * (c - 1))` against `a / b / (c - 1)`: push the inverses inwards before `ring_nf` multiplies out
     | ((try epv_semi_su_pre); epv_semi_inv_nf; ring_nf; done)
     -- (a failing `done` at the end of a term-level `by` is logged, not thrown: end with a proper failure)
-    | fail "r2d_slow: the two sides differ")
+    | fail "epv_semi_su_r2d_slow: the two sides differ")
 
-/-- one level down: `f A = f B` (e.g. `√(v² + u²) = √(u² + v²)`) with `A = B` the same polynomial in the same
-(possibly large) atoms -/
-macro "r2d_peel" : tactic => `(tactic| (congr 1 <;> first | with_reducible rfl | ring1))
-
-macro "r2d_cmp" : tactic => `(tactic| first | r2d_fast | r2d_peel | r2d_slow)
+macro "epv_semi_su_r2d_cmp" : tactic => `(tactic| first | epv_semi_su_r2d_fast | epv_semi_su_r2d_peel | epv_semi_su_r2d_div | epv_semi_su_r2d_slow)
 
 /-- the flow angle of one reported state of the solver `p` at the point `(x, y)`, when the velocity is not
 literally `K * cos φ`: the slip-line direction, the direction of the bottom / top initial state, or the local
 direction inside the bottom / top fan — found by trying these documented candidates, compared up to
 normalisation -/
-macro "r2d_angle " p:term:max x:term:max y:term:max : tactic =>
+macro "epv_semi_su_r2d_angle " p:term:max x:term:max y:term:max : tactic =>
   `(tactic| first
-    | exact ⟨($p).cd_angle, by r2d_fast, by r2d_fast⟩
-    | exact ⟨($p).thetaB / 180 * (1 * Real.pi / 1), by r2d_fast, by r2d_fast⟩
-    | exact ⟨($p).thetaT / 180 * (1 * Real.pi / 1), by r2d_fast, by r2d_fast⟩
-    | exact ⟨($p).cd_angle, by r2d_slow, by r2d_slow⟩
-    | exact ⟨($p).thetaB / 180 * Real.pi, by r2d_slow, by r2d_slow⟩
-    | exact ⟨($p).thetaT / 180 * Real.pi, by r2d_slow, by r2d_slow⟩
+    | exact ⟨($p).cd_angle, by epv_semi_su_r2d_fast, by epv_semi_su_r2d_fast⟩
+    | exact ⟨($p).thetaB / 180 * (1 * Real.pi / 1), by epv_semi_su_r2d_fast, by epv_semi_su_r2d_fast⟩
+    | exact ⟨($p).thetaT / 180 * (1 * Real.pi / 1), by epv_semi_su_r2d_fast, by epv_semi_su_r2d_fast⟩
+    | exact ⟨($p).cd_angle, by epv_semi_su_r2d_slow, by epv_semi_su_r2d_slow⟩
+    | exact ⟨($p).thetaB / 180 * Real.pi, by epv_semi_su_r2d_slow, by epv_semi_su_r2d_slow⟩
+    | exact ⟨($p).thetaT / 180 * Real.pi, by epv_semi_su_r2d_slow, by epv_semi_su_r2d_slow⟩
     | exact ⟨Real.arctan ($y / $x) - (($p).thetaB / 180 * Real.pi - Real.arcsin (1 / ($p).MB))
-        + ($p).thetaB / 180 * Real.pi, by r2d_slow, by r2d_slow⟩
+        + ($p).thetaB / 180 * Real.pi, by epv_semi_su_r2d_slow, by epv_semi_su_r2d_slow⟩
     | exact ⟨Real.arctan ($y / $x) - (($p).thetaT / 180 * Real.pi + Real.arcsin (1 / ($p).MT))
-        + ($p).thetaT / 180 * Real.pi, by r2d_slow, by r2d_slow⟩)
+        + ($p).thetaT / 180 * Real.pi, by epv_semi_su_r2d_slow, by epv_semi_su_r2d_slow⟩)
 
 /-- one reported state (after the case split on the traced conditions, with the `0 * x +` of the broadcast
-initial states removed): gas of the bottom or of the top side.  Cheap attempts first: the velocity is
-`K * cos φ`, `K * sin φ` for some traced angle `φ` and `K` is the product `√(γ p/ρ) · M` in some order. -/
-macro "r2d_state " p:term:max x:term:max y:term:max : tactic =>
+initial states removed).  The speed first (once); then the gas of the bottom or of the top side — cheap
+attempts first: the velocity is `K * cos φ`, `K * sin φ` for some traced angle `φ`, and `K` is the product
+`√(γ p/ρ) · M` in some order; last resort: the documented candidates for the angle. -/
+macro "epv_semi_su_r2d_state " p:term:max x:term:max y:term:max : tactic =>
   `(tactic| first
-    | (refine ReportedConsistent.of_factor ($p).gB (Or.inl rfl) (by r2d_same) (by r2d_same) _
-        ⟨_, by r2d_same, by r2d_same⟩ (by r2d_fast))
-    | (refine ReportedConsistent.of_factor ($p).gT (Or.inr rfl) (by r2d_same) (by r2d_same) _
-        ⟨_, by r2d_same, by r2d_same⟩ (by r2d_fast))
-    | (refine ReportedConsistent.of_factor ($p).gB (Or.inl rfl) (by r2d_cmp) (by r2d_cmp) _
-        ⟨_, by r2d_same, by r2d_same⟩ (by r2d_cmp))
-    | (refine ReportedConsistent.of_factor ($p).gT (Or.inr rfl) (by r2d_cmp) (by r2d_cmp) _
-        ⟨_, by r2d_same, by r2d_same⟩ (by r2d_cmp))
-    | (refine ReportedConsistent.of_angle ($p).gB (Or.inl rfl) (by r2d_cmp) (by r2d_cmp) ?_; r2d_angle $p $x $y)
-    | (refine ReportedConsistent.of_angle ($p).gT (Or.inr rfl) (by r2d_cmp) (by r2d_cmp) ?_; r2d_angle $p $x $y))
+    | (refine ReportedConsistent.of_speed (by epv_semi_su_r2d_cmp) ?_
+       first
+       | exact ⟨($p).gB, Or.inl rfl, by epv_semi_su_r2d_fast, _, _, ⟨by epv_semi_su_r2d_same, by epv_semi_su_r2d_same⟩, by epv_semi_su_r2d_fast⟩
+       | exact ⟨($p).gT, Or.inr rfl, by epv_semi_su_r2d_fast, _, _, ⟨by epv_semi_su_r2d_same, by epv_semi_su_r2d_same⟩, by epv_semi_su_r2d_fast⟩
+       | exact ⟨($p).gB, Or.inl rfl, by epv_semi_su_r2d_cmp, _, _, ⟨by epv_semi_su_r2d_same, by epv_semi_su_r2d_same⟩, by epv_semi_su_r2d_cmp⟩
+       | exact ⟨($p).gT, Or.inr rfl, by epv_semi_su_r2d_cmp, _, _, ⟨by epv_semi_su_r2d_same, by epv_semi_su_r2d_same⟩, by epv_semi_su_r2d_cmp⟩)
+    | (refine ReportedConsistent.of_angle ($p).gB (Or.inl rfl) (by epv_semi_su_r2d_cmp) (by epv_semi_su_r2d_cmp) ?_; epv_semi_su_r2d_angle $p $x $y)
+    | (refine ReportedConsistent.of_angle ($p).gT (Or.inr rfl) (by epv_semi_su_r2d_cmp) (by epv_semi_su_r2d_cmp) ?_; epv_semi_su_r2d_angle $p $x $y))
 
 /-! #### wave pattern S-C-S -/
 
@@ -270,13 +271,15 @@ theorem star_scs_states (p : R2StarSCS.P) :
   dsimp only [epv_tree, epv_leaf]
   epv_semi_su_conj
 
-theorem r2d_scs_consistent (p : R2dSCS.P) (x y : ℝ) :
+/-- one half of `r2d_scs_consistent` (the leaves under the first traced condition; two lemmas so that each
+stays well inside the heartbeat budget whatever the comparison of a leaf costs) -/
+theorem r2d_scs_consistent_pos (p : R2dSCS.P) (x y : ℝ) (h0 : R2dSCS.c0 p x y) :
     ReportedConsistent p.gB p.gT (R2dSCS.pressure p x y) (R2dSCS.density p x y)
       (R2dSCS.specific_internal_energy p x y) (R2dSCS.Mach p x y) (R2dSCS.x_velocity p x y)
       (R2dSCS.y_velocity p x y) (R2dSCS.speed p x y) := by
   unfold R2dSCS.pressure R2dSCS.density R2dSCS.specific_internal_energy R2dSCS.Mach R2dSCS.x_velocity
     R2dSCS.y_velocity R2dSCS.speed
-  case_on (R2dSCS.c0 p x y) <;>
+  simp only [h0, if_true, if_false]
   case_on (R2dSCS.c1 p x y) <;>
   case_on (R2dSCS.c2 p x y) <;>
   case_on (R2dSCS.c3 p x y) <;>
@@ -290,7 +293,39 @@ theorem r2d_scs_consistent (p : R2dSCS.P) (x y : ℝ) :
   case_on (R2dSCS.c11 p x y) <;>
   dsimp only [epv_leaf] <;>
   (try simp only [zero_mul, zero_add]) <;>
-    r2d_state p x y
+    epv_semi_su_r2d_state p x y
+
+/-- one half of `r2d_scs_consistent` (the leaves outside the first traced condition; two lemmas so that each
+stays well inside the heartbeat budget whatever the comparison of a leaf costs) -/
+theorem r2d_scs_consistent_neg (p : R2dSCS.P) (x y : ℝ) (h0 : ¬ R2dSCS.c0 p x y) :
+    ReportedConsistent p.gB p.gT (R2dSCS.pressure p x y) (R2dSCS.density p x y)
+      (R2dSCS.specific_internal_energy p x y) (R2dSCS.Mach p x y) (R2dSCS.x_velocity p x y)
+      (R2dSCS.y_velocity p x y) (R2dSCS.speed p x y) := by
+  unfold R2dSCS.pressure R2dSCS.density R2dSCS.specific_internal_energy R2dSCS.Mach R2dSCS.x_velocity
+    R2dSCS.y_velocity R2dSCS.speed
+  simp only [h0, if_true, if_false]
+  case_on (R2dSCS.c1 p x y) <;>
+  case_on (R2dSCS.c2 p x y) <;>
+  case_on (R2dSCS.c3 p x y) <;>
+  case_on (R2dSCS.c4 p x y) <;>
+  case_on (R2dSCS.c5 p x y) <;>
+  case_on (R2dSCS.c6 p x y) <;>
+  case_on (R2dSCS.c7 p x y) <;>
+  case_on (R2dSCS.c8 p x y) <;>
+  case_on (R2dSCS.c9 p x y) <;>
+  case_on (R2dSCS.c10 p x y) <;>
+  case_on (R2dSCS.c11 p x y) <;>
+  dsimp only [epv_leaf] <;>
+  (try simp only [zero_mul, zero_add]) <;>
+    epv_semi_su_r2d_state p x y
+
+theorem r2d_scs_consistent (p : R2dSCS.P) (x y : ℝ) :
+    ReportedConsistent p.gB p.gT (R2dSCS.pressure p x y) (R2dSCS.density p x y)
+      (R2dSCS.specific_internal_energy p x y) (R2dSCS.Mach p x y) (R2dSCS.x_velocity p x y)
+      (R2dSCS.y_velocity p x y) (R2dSCS.speed p x y) := by
+  by_cases h0 : R2dSCS.c0 p x y
+  · exact r2d_scs_consistent_pos p x y h0
+  · exact r2d_scs_consistent_neg p x y h0
 
 /-- every reported (pressure, density, Mach) is the bottom or the top initial state, or the image of
 that side's initial state under `compression_states` (bottom) /
@@ -319,8 +354,8 @@ theorem r2d_scs_states (p : R2dSCS.P) (x y : ℝ) :
     first
     | exact Or.inr (Or.inr (Or.inl ⟨rfl, rfl⟩))
     | exact Or.inr (Or.inr (Or.inr ⟨rfl, rfl⟩))
-    | exact Or.inl ⟨by r2d_fast, by r2d_fast, by r2d_fast⟩
-    | exact Or.inr (Or.inl ⟨by r2d_fast, by r2d_fast, by r2d_fast⟩)
+    | exact Or.inl ⟨by epv_semi_su_r2d_fast, by epv_semi_su_r2d_fast, by epv_semi_su_r2d_fast⟩
+    | exact Or.inr (Or.inl ⟨by epv_semi_su_r2d_fast, by epv_semi_su_r2d_fast, by epv_semi_su_r2d_fast⟩)
 
 /-! #### wave pattern S-C-R -/
 
@@ -340,13 +375,15 @@ theorem star_scr_states (p : R2StarSCR.P) :
   dsimp only [epv_tree, epv_leaf]
   epv_semi_su_conj
 
-theorem r2d_scr_consistent (p : R2dSCR.P) (x y : ℝ) :
+/-- one half of `r2d_scr_consistent` (the leaves under the first traced condition; two lemmas so that each
+stays well inside the heartbeat budget whatever the comparison of a leaf costs) -/
+theorem r2d_scr_consistent_pos (p : R2dSCR.P) (x y : ℝ) (h0 : R2dSCR.c0 p x y) :
     ReportedConsistent p.gB p.gT (R2dSCR.pressure p x y) (R2dSCR.density p x y)
       (R2dSCR.specific_internal_energy p x y) (R2dSCR.Mach p x y) (R2dSCR.x_velocity p x y)
       (R2dSCR.y_velocity p x y) (R2dSCR.speed p x y) := by
   unfold R2dSCR.pressure R2dSCR.density R2dSCR.specific_internal_energy R2dSCR.Mach R2dSCR.x_velocity
     R2dSCR.y_velocity R2dSCR.speed
-  case_on (R2dSCR.c0 p x y) <;>
+  simp only [h0, if_true, if_false]
   case_on (R2dSCR.c1 p x y) <;>
   case_on (R2dSCR.c2 p x y) <;>
   case_on (R2dSCR.c3 p x y) <;>
@@ -360,7 +397,39 @@ theorem r2d_scr_consistent (p : R2dSCR.P) (x y : ℝ) :
   case_on (R2dSCR.c11 p x y) <;>
   dsimp only [epv_leaf] <;>
   (try simp only [zero_mul, zero_add]) <;>
-    r2d_state p x y
+    epv_semi_su_r2d_state p x y
+
+/-- one half of `r2d_scr_consistent` (the leaves outside the first traced condition; two lemmas so that each
+stays well inside the heartbeat budget whatever the comparison of a leaf costs) -/
+theorem r2d_scr_consistent_neg (p : R2dSCR.P) (x y : ℝ) (h0 : ¬ R2dSCR.c0 p x y) :
+    ReportedConsistent p.gB p.gT (R2dSCR.pressure p x y) (R2dSCR.density p x y)
+      (R2dSCR.specific_internal_energy p x y) (R2dSCR.Mach p x y) (R2dSCR.x_velocity p x y)
+      (R2dSCR.y_velocity p x y) (R2dSCR.speed p x y) := by
+  unfold R2dSCR.pressure R2dSCR.density R2dSCR.specific_internal_energy R2dSCR.Mach R2dSCR.x_velocity
+    R2dSCR.y_velocity R2dSCR.speed
+  simp only [h0, if_true, if_false]
+  case_on (R2dSCR.c1 p x y) <;>
+  case_on (R2dSCR.c2 p x y) <;>
+  case_on (R2dSCR.c3 p x y) <;>
+  case_on (R2dSCR.c4 p x y) <;>
+  case_on (R2dSCR.c5 p x y) <;>
+  case_on (R2dSCR.c6 p x y) <;>
+  case_on (R2dSCR.c7 p x y) <;>
+  case_on (R2dSCR.c8 p x y) <;>
+  case_on (R2dSCR.c9 p x y) <;>
+  case_on (R2dSCR.c10 p x y) <;>
+  case_on (R2dSCR.c11 p x y) <;>
+  dsimp only [epv_leaf] <;>
+  (try simp only [zero_mul, zero_add]) <;>
+    epv_semi_su_r2d_state p x y
+
+theorem r2d_scr_consistent (p : R2dSCR.P) (x y : ℝ) :
+    ReportedConsistent p.gB p.gT (R2dSCR.pressure p x y) (R2dSCR.density p x y)
+      (R2dSCR.specific_internal_energy p x y) (R2dSCR.Mach p x y) (R2dSCR.x_velocity p x y)
+      (R2dSCR.y_velocity p x y) (R2dSCR.speed p x y) := by
+  by_cases h0 : R2dSCR.c0 p x y
+  · exact r2d_scr_consistent_pos p x y h0
+  · exact r2d_scr_consistent_neg p x y h0
 
 /-- every reported (pressure, density, Mach) is the bottom or the top initial state, or the image of
 that side's initial state under `compression_states` (bottom) /
@@ -389,8 +458,8 @@ theorem r2d_scr_states (p : R2dSCR.P) (x y : ℝ) :
     first
     | exact Or.inr (Or.inr (Or.inl ⟨rfl, rfl⟩))
     | exact Or.inr (Or.inr (Or.inr ⟨rfl, rfl⟩))
-    | exact Or.inl ⟨by r2d_fast, by r2d_fast, by r2d_fast⟩
-    | exact Or.inr (Or.inl ⟨by r2d_fast, by r2d_fast, by r2d_fast⟩)
+    | exact Or.inl ⟨by epv_semi_su_r2d_fast, by epv_semi_su_r2d_fast, by epv_semi_su_r2d_fast⟩
+    | exact Or.inr (Or.inl ⟨by epv_semi_su_r2d_fast, by epv_semi_su_r2d_fast, by epv_semi_su_r2d_fast⟩)
 
 /-! #### wave pattern R-C-S -/
 
@@ -410,13 +479,15 @@ theorem star_rcs_states (p : R2StarRCS.P) :
   dsimp only [epv_tree, epv_leaf]
   epv_semi_su_conj
 
-theorem r2d_rcs_consistent (p : R2dRCS.P) (x y : ℝ) :
+/-- one half of `r2d_rcs_consistent` (the leaves under the first traced condition; two lemmas so that each
+stays well inside the heartbeat budget whatever the comparison of a leaf costs) -/
+theorem r2d_rcs_consistent_pos (p : R2dRCS.P) (x y : ℝ) (h0 : R2dRCS.c0 p x y) :
     ReportedConsistent p.gB p.gT (R2dRCS.pressure p x y) (R2dRCS.density p x y)
       (R2dRCS.specific_internal_energy p x y) (R2dRCS.Mach p x y) (R2dRCS.x_velocity p x y)
       (R2dRCS.y_velocity p x y) (R2dRCS.speed p x y) := by
   unfold R2dRCS.pressure R2dRCS.density R2dRCS.specific_internal_energy R2dRCS.Mach R2dRCS.x_velocity
     R2dRCS.y_velocity R2dRCS.speed
-  case_on (R2dRCS.c0 p x y) <;>
+  simp only [h0, if_true, if_false]
   case_on (R2dRCS.c1 p x y) <;>
   case_on (R2dRCS.c2 p x y) <;>
   case_on (R2dRCS.c3 p x y) <;>
@@ -430,7 +501,39 @@ theorem r2d_rcs_consistent (p : R2dRCS.P) (x y : ℝ) :
   case_on (R2dRCS.c11 p x y) <;>
   dsimp only [epv_leaf] <;>
   (try simp only [zero_mul, zero_add]) <;>
-    r2d_state p x y
+    epv_semi_su_r2d_state p x y
+
+/-- one half of `r2d_rcs_consistent` (the leaves outside the first traced condition; two lemmas so that each
+stays well inside the heartbeat budget whatever the comparison of a leaf costs) -/
+theorem r2d_rcs_consistent_neg (p : R2dRCS.P) (x y : ℝ) (h0 : ¬ R2dRCS.c0 p x y) :
+    ReportedConsistent p.gB p.gT (R2dRCS.pressure p x y) (R2dRCS.density p x y)
+      (R2dRCS.specific_internal_energy p x y) (R2dRCS.Mach p x y) (R2dRCS.x_velocity p x y)
+      (R2dRCS.y_velocity p x y) (R2dRCS.speed p x y) := by
+  unfold R2dRCS.pressure R2dRCS.density R2dRCS.specific_internal_energy R2dRCS.Mach R2dRCS.x_velocity
+    R2dRCS.y_velocity R2dRCS.speed
+  simp only [h0, if_true, if_false]
+  case_on (R2dRCS.c1 p x y) <;>
+  case_on (R2dRCS.c2 p x y) <;>
+  case_on (R2dRCS.c3 p x y) <;>
+  case_on (R2dRCS.c4 p x y) <;>
+  case_on (R2dRCS.c5 p x y) <;>
+  case_on (R2dRCS.c6 p x y) <;>
+  case_on (R2dRCS.c7 p x y) <;>
+  case_on (R2dRCS.c8 p x y) <;>
+  case_on (R2dRCS.c9 p x y) <;>
+  case_on (R2dRCS.c10 p x y) <;>
+  case_on (R2dRCS.c11 p x y) <;>
+  dsimp only [epv_leaf] <;>
+  (try simp only [zero_mul, zero_add]) <;>
+    epv_semi_su_r2d_state p x y
+
+theorem r2d_rcs_consistent (p : R2dRCS.P) (x y : ℝ) :
+    ReportedConsistent p.gB p.gT (R2dRCS.pressure p x y) (R2dRCS.density p x y)
+      (R2dRCS.specific_internal_energy p x y) (R2dRCS.Mach p x y) (R2dRCS.x_velocity p x y)
+      (R2dRCS.y_velocity p x y) (R2dRCS.speed p x y) := by
+  by_cases h0 : R2dRCS.c0 p x y
+  · exact r2d_rcs_consistent_pos p x y h0
+  · exact r2d_rcs_consistent_neg p x y h0
 
 /-- every reported (pressure, density, Mach) is the bottom or the top initial state, or the image of
 that side's initial state under `expansion_states` (bottom) /
@@ -459,8 +562,8 @@ theorem r2d_rcs_states (p : R2dRCS.P) (x y : ℝ) :
     first
     | exact Or.inr (Or.inr (Or.inl ⟨rfl, rfl⟩))
     | exact Or.inr (Or.inr (Or.inr ⟨rfl, rfl⟩))
-    | exact Or.inl ⟨by r2d_fast, by r2d_fast, by r2d_fast⟩
-    | exact Or.inr (Or.inl ⟨by r2d_fast, by r2d_fast, by r2d_fast⟩)
+    | exact Or.inl ⟨by epv_semi_su_r2d_fast, by epv_semi_su_r2d_fast, by epv_semi_su_r2d_fast⟩
+    | exact Or.inr (Or.inl ⟨by epv_semi_su_r2d_fast, by epv_semi_su_r2d_fast, by epv_semi_su_r2d_fast⟩)
 
 /-! #### wave pattern R-C-R -/
 
@@ -480,13 +583,15 @@ theorem star_rcr_states (p : R2StarRCR.P) :
   dsimp only [epv_tree, epv_leaf]
   epv_semi_su_conj
 
-theorem r2d_rcr_consistent (p : R2dRCR.P) (x y : ℝ) :
+/-- one half of `r2d_rcr_consistent` (the leaves under the first traced condition; two lemmas so that each
+stays well inside the heartbeat budget whatever the comparison of a leaf costs) -/
+theorem r2d_rcr_consistent_pos (p : R2dRCR.P) (x y : ℝ) (h0 : R2dRCR.c0 p x y) :
     ReportedConsistent p.gB p.gT (R2dRCR.pressure p x y) (R2dRCR.density p x y)
       (R2dRCR.specific_internal_energy p x y) (R2dRCR.Mach p x y) (R2dRCR.x_velocity p x y)
       (R2dRCR.y_velocity p x y) (R2dRCR.speed p x y) := by
   unfold R2dRCR.pressure R2dRCR.density R2dRCR.specific_internal_energy R2dRCR.Mach R2dRCR.x_velocity
     R2dRCR.y_velocity R2dRCR.speed
-  case_on (R2dRCR.c0 p x y) <;>
+  simp only [h0, if_true, if_false]
   case_on (R2dRCR.c1 p x y) <;>
   case_on (R2dRCR.c2 p x y) <;>
   case_on (R2dRCR.c3 p x y) <;>
@@ -500,7 +605,39 @@ theorem r2d_rcr_consistent (p : R2dRCR.P) (x y : ℝ) :
   case_on (R2dRCR.c11 p x y) <;>
   dsimp only [epv_leaf] <;>
   (try simp only [zero_mul, zero_add]) <;>
-    r2d_state p x y
+    epv_semi_su_r2d_state p x y
+
+/-- one half of `r2d_rcr_consistent` (the leaves outside the first traced condition; two lemmas so that each
+stays well inside the heartbeat budget whatever the comparison of a leaf costs) -/
+theorem r2d_rcr_consistent_neg (p : R2dRCR.P) (x y : ℝ) (h0 : ¬ R2dRCR.c0 p x y) :
+    ReportedConsistent p.gB p.gT (R2dRCR.pressure p x y) (R2dRCR.density p x y)
+      (R2dRCR.specific_internal_energy p x y) (R2dRCR.Mach p x y) (R2dRCR.x_velocity p x y)
+      (R2dRCR.y_velocity p x y) (R2dRCR.speed p x y) := by
+  unfold R2dRCR.pressure R2dRCR.density R2dRCR.specific_internal_energy R2dRCR.Mach R2dRCR.x_velocity
+    R2dRCR.y_velocity R2dRCR.speed
+  simp only [h0, if_true, if_false]
+  case_on (R2dRCR.c1 p x y) <;>
+  case_on (R2dRCR.c2 p x y) <;>
+  case_on (R2dRCR.c3 p x y) <;>
+  case_on (R2dRCR.c4 p x y) <;>
+  case_on (R2dRCR.c5 p x y) <;>
+  case_on (R2dRCR.c6 p x y) <;>
+  case_on (R2dRCR.c7 p x y) <;>
+  case_on (R2dRCR.c8 p x y) <;>
+  case_on (R2dRCR.c9 p x y) <;>
+  case_on (R2dRCR.c10 p x y) <;>
+  case_on (R2dRCR.c11 p x y) <;>
+  dsimp only [epv_leaf] <;>
+  (try simp only [zero_mul, zero_add]) <;>
+    epv_semi_su_r2d_state p x y
+
+theorem r2d_rcr_consistent (p : R2dRCR.P) (x y : ℝ) :
+    ReportedConsistent p.gB p.gT (R2dRCR.pressure p x y) (R2dRCR.density p x y)
+      (R2dRCR.specific_internal_energy p x y) (R2dRCR.Mach p x y) (R2dRCR.x_velocity p x y)
+      (R2dRCR.y_velocity p x y) (R2dRCR.speed p x y) := by
+  by_cases h0 : R2dRCR.c0 p x y
+  · exact r2d_rcr_consistent_pos p x y h0
+  · exact r2d_rcr_consistent_neg p x y h0
 
 /-- every reported (pressure, density, Mach) is the bottom or the top initial state, or the image of
 that side's initial state under `expansion_states` (bottom) /
@@ -529,8 +666,8 @@ theorem r2d_rcr_states (p : R2dRCR.P) (x y : ℝ) :
     first
     | exact Or.inr (Or.inr (Or.inl ⟨rfl, rfl⟩))
     | exact Or.inr (Or.inr (Or.inr ⟨rfl, rfl⟩))
-    | exact Or.inl ⟨by r2d_fast, by r2d_fast, by r2d_fast⟩
-    | exact Or.inr (Or.inl ⟨by r2d_fast, by r2d_fast, by r2d_fast⟩)
+    | exact Or.inl ⟨by epv_semi_su_r2d_fast, by epv_semi_su_r2d_fast, by epv_semi_su_r2d_fast⟩
+    | exact Or.inr (Or.inl ⟨by epv_semi_su_r2d_fast, by epv_semi_su_r2d_fast, by epv_semi_su_r2d_fast⟩)
 
 end
 
